@@ -32,6 +32,42 @@ def w_hist(exe, pool, programs, extra, src):
     return part
 
 
+def w_memcheck_hist(exe, pool, programs):
+    """The same histories under valgrind memcheck (uninstrumented -O0 build): every value the driver prints - return values,
+    codes, every result field of the reused object - must be *defined*; a field that is only accidentally equal between
+    the reused and the fresh object (stale heap contents) shows up here."""
+    import os, re, subprocess
+    from .. import build, driver
+    part = HM.new_part()
+    lines = ["P " + driver.hx(a) for a in pool] + ["H " + " ".join(p) for p in programs]
+    data = ("\n".join(lines) + "\nQ\n").encode()
+    cmd = ["valgrind", "--tool=memcheck", "-q", "--error-exitcode=68", "--track-origins=yes", "--leak-check=full",
+           "--errors-for-leak-kinds=definite,indirect", exe]
+    p = subprocess.run(cmd, input=data, stdout=subprocess.PIPE, stderr=subprocess.PIPE, env=dict(os.environ, LC_ALL="C"), timeout=3000)
+    err = p.stderr.decode("utf-8", "replace")
+    part["counters"]["memcheck.histories"] += p.stdout.count(b'["end"')
+    if p.returncode != 0:
+        srcs = set(os.listdir(os.path.join(build.REPO, "src"))) | set(os.listdir(os.path.join(build.REPO, "partial", "idn2")))
+        seen = 0
+        for blk in [b for b in re.split(r"\n==\d+== \n", err) if "==" in b]:
+            m = re.search(r"==\d+== ([A-Z][^\n]+)", blk)
+            kind = re.sub(r"[^A-Za-z]+", "-", (m.group(1) if m else "error"))[:50].strip("-")
+            frame = "?"
+            for fm in re.finditer(r"(?:at|by) 0x[0-9A-F]+: (\S+) \((\S+?):(\d+)\)", blk):
+                if fm.group(2) in srcs:
+                    frame = "%s@%s" % (fm.group(1), fm.group(2))
+                    break
+            if frame == "?" and "hist.c" not in blk:
+                continue
+            seen += 1
+            part["viol"].append(("memcheck/%s/%s" % (kind, frame), {"tool": "memcheck", "histories": len(programs)}, {"report": blk[:1800]}))
+        if not seen:
+            part["viol"].append(("memcheck/exit%d" % p.returncode, {"tool": "memcheck"}, {"stderr": err[-1500:]}))
+    part["distinct"] = len(programs)
+    part["samples"].append({"source": "memcheck", "history": " ".join(programs[0][:30])})
+    return part
+
+
 def exhaustive(mdl, pool, length):
     ops = HM.alphabet(mdl, len(pool))
     for n in range(2, length + 1):
@@ -86,6 +122,14 @@ def main(tier, seed):
                 p = random_history(r, w, r.choice([5, 20, 60, 200]))
                 ps.append([("e%d" % r.randrange(len(big))) if o == "E" else o for o in p])
             jobs.append((w_hist, (exe, big, ps, extra, "random")))
+    # memcheck pass on an uninstrumented build (definedness of every observed field)
+    plain = cx.exe("plain-O0-hist", driver=("drv/hist.c",), san="plain-O0")
+    r = random.Random(seed * 4099)
+    ops = HM.alphabet(mdl, len(HM.POOL7))
+    mprogs = [["r%d" % r.randrange(4), "s"] + [r.choice(ops) for _ in range(r.choice([6, 15, 40]))] for _ in range(160 if tier == "quick" else 1600)]
+    mprogs += progs[seed % 97::97][:200 if tier == "quick" else 2000]
+    for i in range(0, len(mprogs), 60):
+        jobs.append((w_memcheck_hist, (plain, HM.POOL7, mprogs[i:i + 60])))
     for part in core.pmap(_run, jobs):
         rep.merge(part)
     c = rep.counters
